@@ -83,20 +83,13 @@ Definition step_may_match (l : laststep) (k : nkey) : bool :=
   end.
 
 (* one alternative of a (union) match pattern *)
-(* a_score: the default priority class getTargetData reports (table order, quiet path);
-   a_rscore: the score XPath::getMatchScore returns at run time when this alternative is the one
-   that matches (stepPattern: the node test's score for a single step, also under non-positional
-   predicates; eMatchScoreOther for several steps or a positional predicate) — used by the
-   conflict-reporting path only *)
-Record alt := { a_pat : N; a_target : target; a_score : score; a_rscore : score }.
+Record alt := { a_pat : N; a_target : target; a_score : score }.
 
-(* xsl:template with a match attribute.  t_text identifies the pattern *string* (two templates
-   have the same t_text iff their match attributes are the same string) *)
+(* xsl:template with a match attribute *)
 Record template := {
   t_id : N;
   t_mode : option N;
   t_prio : option Z;       (* explicit priority attribute *)
-  t_text : N;
   t_alts : list alt }.
 
 (* XalanMatchPatternData *)
@@ -168,7 +161,7 @@ Definition slots_of_target (tg : target) : list slot :=
       match tg_type tg with
       | TTElement => [SElemAny]
       | TTAttribute => [SAttrAny]
-      | TTAny => [SElemAny; SAttrAny]
+      | TTAny => [SElemAny; SAttrAny; SText; SComment; SPI; SRoot; SNode]
       | TTOther => []
       end
   | TNName n =>
@@ -271,6 +264,42 @@ Definition opt_z_eqb (a b : option Z) : bool :=
   | _, _ => false
   end.
 
+(* decidable equality of templates: stands for the comparison of ElemTemplate pointers in the
+   conflict-reporting path (two occurrences with equal records behave identically) *)
+Definition score_eqb (a b : score) : bool :=
+  match a, b with
+  | ScNone, ScNone | ScNodeTest, ScNodeTest | ScNSWild, ScNSWild | ScQName, ScQName | ScOther, ScOther => true
+  | _, _ => false
+  end.
+
+Definition tname_eqb (a b : tname) : bool :=
+  match a, b with
+  | TNText, TNText | TNComment, TNComment | TNRoot, TNRoot | TNPI, TNPI | TNNode, TNNode | TNAny, TNAny => true
+  | TNName x, TNName y => (x =? y)%N
+  | _, _ => false
+  end.
+
+Definition ttype_eqb (a b : ttype) : bool :=
+  match a, b with
+  | TTElement, TTElement | TTAttribute, TTAttribute | TTAny, TTAny | TTOther, TTOther => true
+  | _, _ => false
+  end.
+
+Definition alt_eqb (a b : alt) : bool :=
+  (a_pat a =? a_pat b)%N && tname_eqb (tg_name (a_target a)) (tg_name (a_target b)) &&
+  ttype_eqb (tg_type (a_target a)) (tg_type (a_target b)) && score_eqb (a_score a) (a_score b).
+
+Fixpoint alts_eqb (l1 l2 : list alt) : bool :=
+  match l1, l2 with
+  | [], [] => true
+  | a :: r1, b :: r2 => alt_eqb a b && alts_eqb r1 r2
+  | _, _ => false
+  end.
+
+Definition template_eqb (t1 t2 : template) : bool :=
+  (t_id t1 =? t_id t2)%N && mode_eqb (t_mode t1) (t_mode t2) && opt_z_eqb (t_prio t1) (t_prio t2) &&
+  alts_eqb (t_alts t1) (t_alts t2).
+
 Section Select.
   Variable node : Type.
   Variable key_of : node -> nkey.
@@ -296,7 +325,7 @@ Section Select.
         then Some (e_tmpl e) else find_in_list r mode n
     end.
 
-  (* non-quiet path: the scan with run-time priority, the same-text skip and the conflict
+  (* non-quiet path: the scan by table priority, the same-template skip and the conflict
      array.  State: best entry and its priority, conflict array, previously examined entry *)
   Record nq_state := {
     nq_best : option (entry * Z);
@@ -309,15 +338,14 @@ Section Select.
   Definition nq_step (mode : option N) (n : node) (st : nq_state) (e : entry) : nq_state :=
     if negb (mode_eqb mode (t_mode (e_tmpl e))) then st else
     let skip := match nq_prev st with
-                | Some p => (t_text (e_tmpl p) =? t_text (e_tmpl e))%N &&
-                            opt_z_eqb (t_prio (e_tmpl p)) (t_prio (e_tmpl e))
+                | Some p => template_eqb (e_tmpl p) (e_tmpl e)
                 | None => false
                 end in
     if skip then st else
     match first_matching (t_alts (e_tmpl e)) n with
     | None => {| nq_best := nq_best st; nq_conf := nq_conf st; nq_prev := Some e |}
-    | Some a =>
-        let pr := match t_prio (e_tmpl e) with Some p => p | None => score_value (a_rscore a) end in
+    | Some _ =>
+        let pr := prio_or_default e in
         match nq_best st with
         | None => {| nq_best := Some (e, pr); nq_conf := []; nq_prev := Some e |}
         | Some (b, pb) =>
@@ -473,7 +501,7 @@ Section Select.
     rules_of_levels 0 (removelast (postorder s)).
 
   (* ------------------------------------------------------------------------------------ *)
-  (* guards left by the refutations *)
+  (* guard left by the refutation K1 *)
 
   Definition all_templates (s : sheet) : list template := concat (postorder s).
 
@@ -503,33 +531,12 @@ Section Select.
     | KOther => existsb (slot_eqb SNode) (slots_of_target tg)
     end.
 
-  (* K2 guard, for one node: every alternative that matches the node is filed in a list the
-     node is looked up in *)
+  (* every alternative that matches the node is filed in a list the node is looked up in
+     (a property of the matcher: it follows from the shapes of the alternatives, see
+     TmplShape.filed_from_shapes) *)
   Definition filed_where_matching (s : sheet) (n : node) : bool :=
     forallb (fun t => forallb (fun a => implb (pmatch (a_pat a) n) (covers (a_target a) (key_of n)))
                               (t_alts t))
             (all_templates s).
-
-  (* guard of quiet_eq_nonquiet: without a priority attribute, the run-time score of every
-     alternative is its default priority *)
-  Definition runtime_uniform_template (t : template) : bool :=
-    match t_prio t with
-    | Some _ => true
-    | None => forallb (fun a => score_value (a_rscore a) =? score_value (a_score a)) (t_alts t)
-    end.
-
-  Definition runtime_scores_agree (s : sheet) : bool :=
-    forallb runtime_uniform_template (all_templates s).
-
-  (* guard of quiet_eq_nonquiet: templates of one stylesheet level with the same match string
-     and the same priority attribute behave alike on the node (violated only when the same
-     string denotes different patterns, e.g. under different namespace bindings) *)
-  Definition level_same_text (ts : list template) (n : node) : bool :=
-    forallb (fun t1 => forallb (fun t2 =>
-               implb ((t_text t1 =? t_text t2)%N && opt_z_eqb (t_prio t1) (t_prio t2))
-                     (Bool.eqb (tmatch t1 n) (tmatch t2 n))) ts) ts.
-
-  Definition same_text_same_match (s : sheet) (n : node) : bool :=
-    forallb (fun ts => level_same_text ts n) (postorder s).
 
 End Select.
